@@ -16,6 +16,30 @@ set_option linter.unusedVariables false
 namespace LZ.GenDHPParse
 open LZ LZ.Gen LZ.GenBuf LZ.GenHash LZ.GenHPParse LZ.GenParse
 
+theorem resBind_assoc {α β γ : Type} (m : Res α) (g : α → Res β) (k : β → Res γ) :
+    Res.bind (Res.bind m g) k = Res.bind m (fun a => Res.bind (g a) k) := by
+  cases m <;> rfl
+
+/-- the defining equation of a generated loop function against the loop body the shared lemmas are stated for
+    (`reindex1`, `reindex2`, `loop2_of_eqn` of GenParseShared): `rfl`; or — when the body calls extracted helpers
+    (`h.put(i, x)`) — after unfolding every `@[gen_helper]` and re-associating the binds; or — when a test is spelled
+    otherwise (operands, negation, arms swapped) — split every test as it comes, contradictory combinations by `omega` -/
+local macro "loop_eqn" f:term : tactic => `(tactic|
+  (rw [$f:term]
+   first
+     | rfl
+     | (simp only [gen_helper, resBind_assoc, bind_ok]; rfl)
+     | ((try simp only [gen_helper, resBind_assoc, bind_ok]); (repeat' split) <;>
+          first
+            | rfl
+            | (exfalso; omega)
+            | (exfalso; simp only [Int.ofNat_eq_natCast] at *; omega))))
+
+/-- a clamp computed by generated code (`if c < b { b = c }; if b < 0 { b = 0 }`, `min`/`max`, a helper, in any
+    spelling) against its value: split every test as it comes, `omega` -/
+local macro "clamp_tac" : tactic => `(tactic|
+  ((try simp only [LZ.GenProps.gen_min, Int.min_def, Int.max_def, Int.ofNat_eq_natCast] at *); (repeat' split) <;> omega))
+
 /-! ## the two tables inside the Go state -/
 
 /-- a `doubleHashDictionary` with other tables -/
@@ -43,7 +67,7 @@ theorem psegLoop1 (b2 : Int) (_p : Slice) (n fuel j : Nat) (a : Int) (f : Gen.do
     reindex2 (doubleHashDictionary_processSegment_loop_1 b2 _p) b2 _p (fun f => f.h1) (fun f => f.h2)
       (fun f t => { f with h1 := { f.h1 with table := t } }) (fun f t => { f with h2 := { f.h2 with table := t } })
       (fun _ _ => rfl) (fun _ _ => rfl) (fun _ _ => rfl) (fun _ _ => rfl)
-      (fun fuel j s => by rw [doubleHashDictionary_processSegment_loop_1]; rfl)
+      (fun fuel j s => by loop_eqn doubleHashDictionary_processSegment_loop_1)
       (fun s s' => ∃ t1 t2, s' = setDD s t1 t2) (fun s => ⟨s.h1.table, s.h2.table, rfl⟩)
       (fun s s' t u ⟨t1, t2, h⟩ => ⟨t, u, by rw [h]⟩)
       n fuel j a f f ha hn hf hr ⟨f.h1.table, f.h2.table, rfl⟩ c1 ht1 c2 ht2
@@ -62,7 +86,7 @@ theorem psegLoop2 (b1 : Int) (_p : Slice) (n fuel j : Nat) (a : Int) (f : Gen.do
     reindex1 (doubleHashDictionary_processSegment_loop_2 b1 _p) b1 _p (fun f => f.h1)
       (fun f _ t => { f with h1 := { f.h1 with table := t } })
       (fun _ _ _ => rfl)
-      (fun fuel j s => by rw [doubleHashDictionary_processSegment_loop_2]; rfl)
+      (fun fuel j s => by loop_eqn doubleHashDictionary_processSegment_loop_2)
       (fun s s' => ∃ t1, s' = setDD s t1 s.h2.table) (fun s => ⟨s.h1.table, rfl⟩)
       (fun s s' y t ⟨t1, h⟩ => ⟨t, by rw [h]⟩)
       n fuel j a f f ha hn hf hr ⟨f.h1.table, rfl⟩ c1 ht1
@@ -96,76 +120,151 @@ theorem gen_processSegment2 (fuel : Nat) (f : Gen.doubleHashDictionary) (a b : I
   have hD' : f.ParserBuffer.Data.len ≤ f.ParserBuffer.Data.arr.length := hD
   have hi1 := w1.il0
   have hi2 := w2.il0
-  unfold ProbeW.processSegment2W doubleHashDictionary_processSegment
+  -- the Go side: the body with every helper unfolded; its calls are picked out below by unification
+  -- (`generalize … _ … = X at hG`), their arguments compared with the model's values by `clamp_tac`
+  generalize hG : doubleHashDictionary_processSegment fuel f a b = G
+  unfold doubleHashDictionary_processSegment at hG
+  (try simp only [gen_helper] at hG)
+  -- the model side: its three clamps as variables with their values
+  unfold ProbeW.processSegment2W
   simp only [Option.bind_eq_bind, Option.pure_def]
   have hc1 : ((f.ParserBuffer.Data.data.length : Nat) : Int) - ((ofHash f.h1).inputLen : Nat) + 1 =
-      ((Int.ofNat f.ParserBuffer.Data.len) - f.h1.inputLen) + 1 := by
+      ((f.ParserBuffer.Data.len : Nat) : Int) - f.h1.inputLen + 1 := by
     rw [hlen]; show _ - ((f.h1.inputLen.toNat : Nat) : Int) + 1 = _
-    rw [Int.toNat_of_nonneg hi1]; rfl
+    rw [Int.toNat_of_nonneg hi1]
   have hc2 : ((f.ParserBuffer.Data.data.length : Nat) : Int) - ((ofHash f.h2).inputLen : Nat) + 1 =
-      ((Int.ofNat f.ParserBuffer.Data.len) - f.h2.inputLen) + 1 := by
+      ((f.ParserBuffer.Data.len : Nat) : Int) - f.h2.inputLen + 1 := by
     rw [hlen]; show _ - ((f.h2.inputLen.toNat : Nat) : Int) + 1 = _
-    rw [Int.toNat_of_nonneg hi2]; rfl
+    rw [Int.toNat_of_nonneg hi2]
   rw [hc1, hc2]
-  -- the two clamped bounds
-  have hb1 : (if ((Int.ofNat f.ParserBuffer.Data.len) - f.h1.inputLen) + 1 < b then
-      ((Int.ofNat f.ParserBuffer.Data.len) - f.h1.inputLen) + 1 else b) ≤ (f.ParserBuffer.Data.len : Int) + 1 := by
-    split
-    · show (f.ParserBuffer.Data.len : Int) - _ + 1 ≤ _; omega
-    · rename_i h; have : b ≤ (f.ParserBuffer.Data.len : Int) - f.h1.inputLen + 1 := Int.not_lt.mp h
-      omega
-  have hb21 : (if ((Int.ofNat f.ParserBuffer.Data.len) - f.h2.inputLen) + 1 < b then
-      ((Int.ofNat f.ParserBuffer.Data.len) - f.h2.inputLen) + 1 else b) ≤
-      (if ((Int.ofNat f.ParserBuffer.Data.len) - f.h1.inputLen) + 1 < b then
-      ((Int.ofNat f.ParserBuffer.Data.len) - f.h1.inputLen) + 1 else b) := by
-    split <;> split <;> (try simp only [Int.ofNat_eq_natCast] at *) <;> omega
-  generalize (if ((Int.ofNat f.ParserBuffer.Data.len) - f.h1.inputLen) + 1 < b then
-      ((Int.ofNat f.ParserBuffer.Data.len) - f.h1.inputLen) + 1 else b) = b1 at hb1 hb21 ⊢
-  generalize (if ((Int.ofNat f.ParserBuffer.Data.len) - f.h2.inputLen) + 1 < b then
-      ((Int.ofNat f.ParserBuffer.Data.len) - f.h2.inputLen) + 1 else b) = b2 at hb21 ⊢
-  have hb1' : 0 ≤ (if b1 < 0 then 0 else b1) ∧ (if b1 < 0 then 0 else b1) ≤ (f.ParserBuffer.Data.len : Int) + 1 := by
-    split <;> omega
-  have hb2' : 0 ≤ (if b2 < 0 then 0 else b2) ∧ (if b2 < 0 then 0 else b2) ≤ (if b1 < 0 then 0 else b1) := by
-    split <;> split <;> omega
-  generalize (if b1 < 0 then 0 else b1) = c1 at hb1' hb2' ⊢
-  generalize (if b2 < 0 then 0 else b2) = c2 at hb2' ⊢
-  have ha' : 0 ≤ (if a < 0 then 0 else a) := by split <;> omega
-  generalize (if a < 0 then 0 else a) = a' at ha' ⊢
+  generalize hb1d : (if ((f.ParserBuffer.Data.len : Nat) : Int) - f.h1.inputLen + 1 < b then
+      ((f.ParserBuffer.Data.len : Nat) : Int) - f.h1.inputLen + 1 else b) = b1
+  generalize hb2d : (if ((f.ParserBuffer.Data.len : Nat) : Int) - f.h2.inputLen + 1 < b then
+      ((f.ParserBuffer.Data.len : Nat) : Int) - f.h2.inputLen + 1 else b) = b2
+  generalize hc1d : (if b1 < 0 then 0 else b1) = c1
+  generalize hc2d : (if b2 < 0 then 0 else b2) = c2
+  generalize ha'd : (if a < 0 then 0 else a) = a'
+  have hc1v : c1 = Max.max 0 (Min.min (((f.ParserBuffer.Data.len : Nat) : Int) - f.h1.inputLen + 1) b) := by
+    rw [← hc1d, ← hb1d]; (repeat' split) <;> omega
+  have hc2v : c2 = Max.max 0 (Min.min (((f.ParserBuffer.Data.len : Nat) : Int) - f.h2.inputLen + 1) b) := by
+    rw [← hc2d, ← hb2d]; (repeat' split) <;> omega
+  have ha'v : a' = Max.max 0 a := by rw [← ha'd]; split <;> omega
+  clear hb1d hb2d hc1d hc2d ha'd b1 b2
+  have hb1' : 0 ≤ c1 ∧ c1 ≤ (f.ParserBuffer.Data.len : Int) + 1 := by omega
+  have hb2' : 0 ≤ c2 ∧ c2 ≤ c1 := by omega
+  have ha' : 0 ≤ a' := by omega
   unfold BytesW.sliceTo
   rw [take_append_drop_data]
+  -- `_p := f.Data[:b1+7]`
+  generalize hS : Slice.slice f.ParserBuffer.Data 0 _ = S at hG
   by_cases hcap : c1.toNat + 7 ≤ f.ParserBuffer.Data.arr.length
   · rw [if_pos hcap, Option.bind_some]
-    rw [slice_okI f.ParserBuffer.Data 0 (c1 + 7) 0 (c1.toNat + 7) rfl (by omega) (by omega) hcap, bind_ok]
-    simp only [List.drop_zero, Nat.sub_zero]
+    have hSv : S = Res.ok { arr := f.ParserBuffer.Data.arr.drop 0, len := c1.toNat + 7 - 0 } := by
+      rw [← hS, ← slice_okI f.ParserBuffer.Data 0 (c1 + 7) 0 (c1.toNat + 7) rfl (by omega) (by omega) hcap]
+      congr 1
+      clamp_tac
+    rw [hSv, bind_ok] at hG
+    simp only [List.drop_zero, Nat.sub_zero] at hG
     have hswf : SWF ({ arr := f.ParserBuffer.Data.arr, len := c1.toNat + 7 } : Slice) := hcap
     have hsm : ({ arr := f.ParserBuffer.Data.arr, len := c1.toNat + 7 } : Slice).len < 4294967296 + 8 := by
       show c1.toNat + 7 < _; omega
+    -- the first loop (both tables)
     obtain ⟨t1, t2, ht1, ht2, hr1, hr2, hl⟩ := psegLoop1 c2 { arr := f.ParserBuffer.Data.arr, len := c1.toNat + 7 }
       (c2.toNat - a'.toNat) fuel a'.toNat a' f (by omega) (by omega) (by omega)
       (by show _ ∨ _ ≤ c1.toNat + 7; omega) (w1.ctx _ hswf hsm) w1.tok (w2.ctx _ hswf hsm) w2.tok
     rw [data_mk] at hr1 hr2
-    rw [hl, bind_ok]
+    generalize hY : doubleHashDictionary_processSegment_loop_1 _ _ _ _ _ = Y at hG
+    have hYv : Y = Res.ok (((a'.toNat + (c2.toNat - a'.toNat) : Nat) : Int), setDD f t1 t2) := by
+      rw [← hl, ← hY]
+      congr 1 <;> clamp_tac
+    rw [hYv, bind_ok] at hG
+    dsimp only at hG
+    -- the second loop (the table of h1)
     obtain ⟨t1', ht1', hr1', hl'⟩ := psegLoop2 c1 { arr := f.ParserBuffer.Data.arr, len := c1.toNat + 7 }
       (c1.toNat - c2.toNat) fuel c2.toNat c2 (setDD f t1 t2) (by omega) (by omega) (by omega)
       (by show _ ∨ _ ≤ c1.toNat + 7; omega) (w1.ctx _ hswf hsm) ht1
     rw [data_mk] at hr1'
-    dsimp only
-    rw [hl', bind_ok]
+    generalize hZ : doubleHashDictionary_processSegment_loop_2 _ _ _ _ _ = Z at hG
+    have hZv : Z = Res.ok (((c2.toNat + (c1.toNat - c2.toNat) : Nat) : Int),
+        setDD (setDD f t1 t2) t1' (setDD f t1 t2).h2.table) := by
+      rw [← hl', ← hZ]
+      congr 1 <;> clamp_tac
+    rw [hZv, bind_ok] at hG
+    dsimp only at hG
+    subst hG
     have e1 : ProbeW.insertRangeW (ofHashT f.h1 t1) (List.take (c1.toNat + 7) f.ParserBuffer.Data.arr) c2.toNat
         (c1.toNat - c2.toNat) = some (ofHashT f.h1 t1') := hr1'
     rw [hr1, Option.bind_some, e1, Option.bind_some, hr2, Option.bind_some]
     exact ⟨t1', t2, ht1', ht2, rfl, rfl⟩
   · rw [if_neg hcap]
-    rw [slice_panic _ _ _ (by right; right; omega)]
+    have hSv : S = Res.panic := by
+      rw [← hS]
+      apply slice_panic
+      clamp_tac
+    rw [hSv] at hG
+    subst hG
     rfl
 
 /-! ## the inner loops of `Parse` -/
 
 theorem loop2_spec (grow : Nat → Nat → Nat) (x : UInt64) : Loop2Spec (doubleHashParser_Parse_loop_2 grow x) :=
-  loop2_of_eqn _ (fun fuel k r q => by rw [doubleHashParser_Parse_loop_2]; rfl)
+  loop2_of_eqn _ (fun fuel k r q => by loop_eqn doubleHashParser_Parse_loop_2)
 
 theorem loop6_spec (grow : Nat → Nat → Nat) (x : UInt64) : Loop2Spec (doubleHashParser_Parse_loop_6 grow x) :=
-  loop2_of_eqn _ (fun fuel k r q => by rw [doubleHashParser_Parse_loop_6]; rfl)
+  loop2_of_eqn _ (fun fuel k r q => by loop_eqn doubleHashParser_Parse_loop_6)
+
+/-! ### the extension loops seen from the code behind them
+
+  The callers (`loop1_step`, `loop5_step` in GenDHPParseLoop) do not mention the loop functions, their parameter
+  lists, their state tuples or exit codes: they apply `loop2_cont` / `loop6_cont` BY UNIFICATION to the term
+  `Res.bind (loop … ) T` in the goal (`T` = whatever code follows the loop) and read the result of the loop through
+  `ExtView` only.  A restructured extension loop (other state tuple, a flag instead of the exit code, another parameter
+  list) needs a new `ExtView`, `loopN_spec` and `loopN_cont` — nothing else. -/
+
+/-- how the code behind an extension loop reads the loop's result `res`: `done` = a mismatch was found inside the
+    loop (the tail `if len(q) > 0 {…}` is skipped); `k`, `r`, `q` = the variables after the loop.  The interface
+    (four conjuncts: test for `done`, `k`, `r`, `q`) is what the callers use. -/
+def ExtView (res : Nat × Int × Slice × Slice) (done : Prop) (k : Int) (r q : Slice) : Prop :=
+  (res.1 = 1 ↔ done) ∧ res.2.1 = k ∧ res.2.2.1 = r ∧ res.2.2.2 = q
+
+/-- continuation form of `Loop2Spec`: the loop followed by ANY code `T` that computes `a` from every result the loop
+    can have (`done`: the match length is `k`; otherwise it is `matchExtTail r q k`) -/
+theorem ext_cont_of_spec {F : Nat → Int → Slice → Slice → Res (Nat × Int × Slice × Slice)} (hF : Loop2Spec F)
+    {β : Type} {T : Nat × Int × Slice × Slice → Res β} {a : Res β} (m fuel kN kk : Nat) {k : Int} {r q : Slice}
+    (hm : q.len < 8 * m) (hmf : m ≤ fuel) (hk : k = (kN : Int)) (hr : SWF r) (hq : SWF q) (hqr : q.len ≤ r.len)
+    (hme : BytesW.matchExtLoop r.data q.data kN = some kk)
+    (hT : ∀ (res : Nat × Int × Slice × Slice) (done : Prop) (kN' : Nat) (r' q' : Slice),
+      ExtView res done (kN' : Int) r' q' → SWF r' → SWF q' → (done → kN' = kk) →
+      (¬ done → BytesW.matchExtTail r'.data q'.data kN' = kk) → T res = a) :
+    Res.bind (F fuel k r q) T = a := by
+  obtain ⟨e, kN', r', q', hl, hr', hq', hdisj⟩ := hF m fuel kN k r q hm hmf hk hr hq hqr
+  rw [hl, bind_ok]
+  rw [hme] at hdisj
+  rcases hdisj with ⟨he, hm'⟩ | ⟨he, hm'⟩
+  · exact hT _ (e = 1) kN' r' q' ⟨Iff.rfl, rfl, rfl, rfl⟩ hr' hq' (fun _ => (Option.some.inj hm').symm)
+      (fun h => absurd he h)
+  · exact hT _ (e = 1) kN' r' q' ⟨Iff.rfl, rfl, rfl, rfl⟩ hr' hq' (fun h => absurd h he)
+      (fun _ => (Option.some.inj hm').symm)
+
+theorem loop2_cont {grow : Nat → Nat → Nat} {x : UInt64}
+    {β : Type} {T : Nat × Int × Slice × Slice → Res β} {a : Res β} (m fuel kN kk : Nat) {k : Int} {r q : Slice}
+    (hm : q.len < 8 * m) (hmf : m ≤ fuel) (hk : k = (kN : Int)) (hr : SWF r) (hq : SWF q) (hqr : q.len ≤ r.len)
+    (hme : BytesW.matchExtLoop r.data q.data kN = some kk)
+    (hT : ∀ (res : Nat × Int × Slice × Slice) (done : Prop) (kN' : Nat) (r' q' : Slice),
+      ExtView res done (kN' : Int) r' q' → SWF r' → SWF q' → (done → kN' = kk) →
+      (¬ done → BytesW.matchExtTail r'.data q'.data kN' = kk) → T res = a) :
+    Res.bind (doubleHashParser_Parse_loop_2 grow x fuel k r q) T = a :=
+  ext_cont_of_spec (loop2_spec grow x) m fuel kN kk hm hmf hk hr hq hqr hme hT
+
+theorem loop6_cont {grow : Nat → Nat → Nat} {x : UInt64}
+    {β : Type} {T : Nat × Int × Slice × Slice → Res β} {a : Res β} (m fuel kN kk : Nat) {k : Int} {r q : Slice}
+    (hm : q.len < 8 * m) (hmf : m ≤ fuel) (hk : k = (kN : Int)) (hr : SWF r) (hq : SWF q) (hqr : q.len ≤ r.len)
+    (hme : BytesW.matchExtLoop r.data q.data kN = some kk)
+    (hT : ∀ (res : Nat × Int × Slice × Slice) (done : Prop) (kN' : Nat) (r' q' : Slice),
+      ExtView res done (kN' : Int) r' q' → SWF r' → SWF q' → (done → kN' = kk) →
+      (¬ done → BytesW.matchExtTail r'.data q'.data kN' = kk) → T res = a) :
+    Res.bind (doubleHashParser_Parse_loop_6 grow x fuel k r q) T = a :=
+  ext_cont_of_spec (loop6_spec grow x) m fuel kN kk hm hmf hk hr hq hqr hme hT
 
 /-- loop_3 of `Parse` (`for j = i + 1; j < b; j++ { … }`: both tables) -/
 theorem loop3_eq (grow : Nat → Nat → Nat) (b : Int) (y : UInt64) (_p : Slice) (x : UInt64) (h pos : UInt32)
@@ -185,7 +284,7 @@ theorem loop3_eq (grow : Nat → Nat → Nat) (b : Int) (y : UInt64) (_p : Slice
       (fun s t => { s with doubleHashDictionary := { s.doubleHashDictionary with h2 := { s.doubleHashDictionary.h2 with table := t } } })
       (fun s t => { s with doubleHashDictionary := { s.doubleHashDictionary with h1 := { s.doubleHashDictionary.h1 with table := t } } })
       (fun _ _ => rfl) (fun _ _ => rfl) (fun _ _ => rfl) (fun _ _ => rfl)
-      (fun fuel j s => by rw [doubleHashParser_Parse_loop_3]; rfl)
+      (fun fuel j s => by loop_eqn doubleHashParser_Parse_loop_3)
       (fun s s' => ∃ t1 t2, s' = setTT s t1 t2)
       (fun s => ⟨s.doubleHashDictionary.h1.table, s.doubleHashDictionary.h2.table, rfl⟩)
       (fun s s' t u ⟨t1, t2, h⟩ => ⟨u, t, by rw [h]⟩)
@@ -232,7 +331,7 @@ theorem loop4_heq (grow : Nat → Nat → Nat) (b : Int) (x : UInt64) (_p : Slic
         Res.bind (storeKey s.doubleHashDictionary.h1 s.doubleHashDictionary.h1.table r_2 j) fun t_3 =>
         doubleHashParser_Parse_loop_4 grow b x _p h pos fuel (j + 1) (setTT s t_3 s.doubleHashDictionary.h2.table)
       else Res.ok (j, s) := by
-  rw [doubleHashParser_Parse_loop_4]; rfl
+  loop_eqn doubleHashParser_Parse_loop_4
 
 theorem loop7_heq (grow : Nat → Nat → Nat) (b : Int) (x : UInt64) (_p : Slice) (h : UInt32) (fuel : Nat) (j : Int)
     (s : Gen.doubleHashParser) :
@@ -243,7 +342,7 @@ theorem loop7_heq (grow : Nat → Nat → Nat) (b : Int) (x : UInt64) (_p : Slic
         Res.bind (storeKey s.doubleHashDictionary.h1 s.doubleHashDictionary.h1.table r_2 j) fun t_3 =>
         doubleHashParser_Parse_loop_7 grow b x _p h fuel (j + 1) (setTT s t_3 s.doubleHashDictionary.h2.table)
       else Res.ok (j, s) := by
-  rw [doubleHashParser_Parse_loop_7]; rfl
+  loop_eqn doubleHashParser_Parse_loop_7
 
 /-! ## the word-level finder `ProbeW.dhpProbeW` without `do` -/
 
